@@ -573,7 +573,7 @@ class Interp(Engine):
                 self.exec_block(s.orelse)
                 env2 = self.frame.env
                 merged = dict(env0)
-                for k in set(env1) | set(env2):
+                for k in sorted(set(env1) | set(env2), key=str):
                     v1, v2 = env1.get(k, _UNBOUND), env2.get(k, _UNBOUND)
                     if v1 is v2:
                         merged[k] = v1
@@ -815,7 +815,10 @@ class Interp(Engine):
                 fr.env[spec["index_name"]] = iv
         def _order(item):
             (hk_, rs_), rt_ = item
-            return 0 if rs_ == ALL else (1 if isinstance(rt_, tuple) else 2)      # whole, all-but-keeps, then pointwise
+            # whole, all-but-keeps, then pointwise; ties broken by the array key so that the order of the havoc (hence the
+            # numbering of the fresh constants and the order of the path condition) does not depend on the iteration
+            # order of a Python set, i.e. on PYTHONHASHSEED: some solver verdicts did (C35, check request 7)
+            return (0 if rs_ == ALL else (1 if isinstance(rt_, tuple) else 2), repr(hk_), str(rs_))
         for (hk, rs), rt in sorted(wset.items(), key=_order):
             arr = self.heap.get(hk)
             if arr is None:
@@ -918,7 +921,7 @@ class Interp(Engine):
         raise PathEnd()
 
     def _note_loop_writes(self, wkey, wset, rec):
-        for (hk, rt) in rec:
+        for (hk, rt) in sorted(rec, key=lambda it_: (repr(it_[0]), str(it_[1]))):
             if rt is None:
                 if (hk, ALL) not in wset:
                     wset[(hk, ALL)] = None
@@ -1255,6 +1258,10 @@ class Interp(Engine):
                         self.assume(self.spec_eval(text))
                 finally:
                     self.assuming -= 1
+                if "fresh-result" in c.tags and c.returns is not None and not self.feasible(z3.BoolVal(True)):
+                    # the None / not-None alternative of the result was opened as a free choice: drop the side that
+                    # the callee's post-conditions exclude (else a contradictory path would end normally)
+                    raise Infeasible()
                 if isinstance(res, ListV) and z3.is_int_value(res.t) and res.t.as_long() < 0 and \
                         self.alloc < -res.t.as_long():
                     raise Unsupported("fresh-result: no assumed clause of %s allocated the id of the result" % fv.qual)
